@@ -25,7 +25,7 @@
    operation" is "the two recorded epochs differ". *)
 From Coq Require Import List Arith.
 Import ListNotations.
-From GPA Require Export Bytes Sched.
+From GPA Require Export Bytes AList Sched.
 
 (* key_keeper/key.rs `struct Key`: only the two fields that reach a signature.  [value] is the
    hex-encoded secret (`key`), [guid] the key id. *)
@@ -171,6 +171,47 @@ Definition route_reads (r : route) : list read := single_read_route r.
    calls with 401/403/5xx/closed connections while the key changes and compares the number of
    requests each call produces with this constant (and judges every one of them). *)
 Definition route_requests (_ : route) : nat := 1.
+
+(* ---------------- where the SetKey arguments come from (key_keeper.rs loop_poll) ---------------- *)
+(* Pairing can also be lost at LATCH time: the slot must only ever receive WHOLE key documents.
+   The key folder maps a file name (the <guid> of <guid>.key) to the key document stored in it. *)
+Definition folder := list (bytes * key).
+
+(* fetch_key / fetch_local_key: the file is SELECTED by the guid the host reports as latched; the key
+   handed back is the document found in it (serde_json::from_str::<Key>), whole -- also when the
+   document's guid is not the guid asked for *)
+Definition fetch_local (f : folder) (asked : bytes) : option key := alookup beq asked f.
+
+Inductive latch :=
+| LatchLocal (asked : bytes)   (* "key latched before and search the key locally first": update_key(fetch_key(dir, guid)) *)
+| LatchAcquired (doc : key)    (* acquire_key, store_key, check_key, attest_key, update_key(key): the host's document, whole *)
+| LatchClear.                  (* secure channel disabled: clear_key *)
+
+Definition latch_arg (f : folder) (l : latch) : list (option key) :=
+  match l with
+  | LatchLocal g => match fetch_local f g with Some d => [Some d] | None => [] end
+  | LatchAcquired d => [Some d]
+  | LatchClear => [None]
+  end.
+
+(* store_key writes an acquired document under ITS OWN guid *)
+Definition folder_after (f : folder) (l : latch) : folder :=
+  match l with LatchAcquired d => (guid d, d) :: f | _ => f end.
+
+(* the SetKey arguments of a sequence of polls *)
+Fixpoint latch_ops (f : folder) (ls : list latch) : list (option key) :=
+  match ls with
+  | [] => []
+  | l :: tl => latch_arg f l ++ latch_ops (folder_after f l) tl
+  end.
+
+(* content of the slot after each poll (executable, used by the correspondence check) *)
+Fixpoint latch_run (f : folder) (c : option key) (ls : list latch) : list (option (bytes * bytes)) :=
+  match ls with
+  | [] => []
+  | l :: tl => let c' := last (latch_arg f l) c in
+               option_map (fun k => (guid k, value k)) c' :: latch_run (folder_after f l) c' tl
+  end.
 
 (* ---------------- executable run used by the correspondence check ---------------- *)
 (* tasks: 0 = the keeper performing [ops] in order, i+1 = signer i.  The given schedule is run,
